@@ -407,6 +407,22 @@ type Cursor struct {
 	t       *Tx
 	inner   store.Cursor
 	forward bool
+	// copies of keys/values handed out since the cursor last moved: badger only guarantees an item's key
+	// and value until the iterator advances, so they are poisoned when this cursor moves or is closed
+	lent [][]byte
+}
+
+func (c *Cursor) invalidate() {
+	if !c.t.s.poison {
+		c.lent = nil
+		return
+	}
+	for _, b := range c.lent {
+		for i := range b {
+			b[i] = 0xDB
+		}
+	}
+	c.lent = nil
 }
 
 func (c *Cursor) Seek(key []byte) error {
@@ -423,11 +439,13 @@ func (c *Cursor) Seek(key []byte) error {
 		}
 	}
 	c.t.s.mu.Unlock()
+	c.invalidate()
 	return c.inner.Seek(key)
 }
 
 func (c *Cursor) Next() {
 	c.t.s.call(KNext, c.t, "")
+	c.invalidate()
 	c.inner.Next()
 }
 
@@ -448,11 +466,18 @@ func (c *Cursor) Item() (store.Item, error) {
 	}
 	k := make([]byte, len(it.Key))
 	copy(k, it.Key)
-	return store.Item{Key: k, Value: c.t.hand(it.Value)}, nil
+	var v []byte
+	if it.Value != nil {
+		v = make([]byte, len(it.Value))
+		copy(v, it.Value)
+	}
+	c.lent = append(c.lent, k, v)
+	return store.Item{Key: k, Value: v}, nil
 }
 
 func (c *Cursor) Close() error {
 	c.t.s.call(KCurClose, c.t, "")
+	c.invalidate()
 	return c.inner.Close()
 }
 
